@@ -260,8 +260,11 @@ def leaf(d):
     return d["base"] if d.get("kind") == "pointer" else d
 
 
-def compare_types(c, p, structmap, where):
-    """list of (aspect, text) differences between a C type description and a Python one"""
+def compare_types(c, p, structmap, where, signedness=False):
+    """list of (aspect, text) differences between a C type description and a Python one.
+    signedness=True (structure fields: the statement says "the same C types", and a value read through a field of the
+    other signedness is a different number) also compares the signedness of integers and integer pointees of equal
+    width; for call parameters the statement names the integer WIDTH only."""
     diffs = []
     ck, pk = c.get("kind"), p.get("kind")
     if ck == "int" and c.get("code") == "ENUM":
@@ -291,10 +294,14 @@ def compare_types(c, p, structmap, where):
             return diffs
         if cbk in ("int", "float", "char") and cb.get("size") != pb.get("size"):
             diffs.append(("pointee-width", "C points to %d-byte %s, Python to %d-byte" % (cb.get("size"), cb.get("name"), pb.get("size"))))
+        elif signedness and cbk == "int" and pbk == "int" and bool(cb.get("signed", True)) != bool(pb.get("signed", True)):
+            diffs.append(("pointee-signedness", "C points to %s %s, Python to %s" % ("signed" if cb.get("signed", True) else "unsigned", cb.get("name"), pb.get("spelled", pb.get("name")))))
         return diffs
     if ck in ("int", "char"):
         if c.get("size") != p.get("size"):
             diffs.append(("int-width", "C %s is %d bytes, Python %s is %d bytes" % (c_spell(c), c.get("size"), p.get("spelled"), p.get("size"))))
+        elif signedness and ck == "int" and pk == "int" and bool(c.get("signed", True)) != bool(p.get("signed", True)):
+            diffs.append(("int-signedness", "C %s is %s, Python %s is not" % (c_spell(c), "signed" if c.get("signed", True) else "unsigned", p.get("spelled"))))
         return diffs
     if ck == "float":
         if c.get("size") != p.get("size"):
@@ -520,7 +527,7 @@ def check_structs(pystructs, structmap, dwarf, probe, book):
             want = FIELD_ALIASES.get((cname, c["name"]), c["name"])
             book.judge(pn == want, "struct|%s|field%d:name:%s-vs-%s" % (pname, k + 1, c["name"], pn), "field %d is called %s in C and %s in Python" % (k + 1, c["name"], pn), fpair)
             pd = py_desc(pt)
-            for aspect, text in compare_types(c["type"], pd, structmap, fpair):
+            for aspect, text in compare_types(c["type"], pd, structmap, fpair, signedness=True):
                 book.judge(False, "struct|%s|field%d:%s:%s-vs-%s" % (pname, k + 1, aspect, c_spell(c["type"]), pd.get("spelled")), "field %d (%s): %s" % (k + 1, c["name"], text), fpair)
             book.checks += 1
             poff = getattr(cls, pn).offset
